@@ -8,7 +8,7 @@ RULE = ("programs: call depth 0..MaxDepth x 13 failure kinds (expressions mentio
         "expected trace = call-statement line of every active function, outermost first, then the failing line; replayed with the "
         "optimizer on/off and after an encode/decode round trip; every position must lie inside the text of its file; "
         "module styles also with the module delivered from a file starting with an interpreter line through importers.FileImporter / ShebangReadFile (positions are positions in the file); "
-        "non-trivial = depth >= 1")
+        "non-trivial = depth >= 1; recursion through two call sites of one function; functions called by the host through a pooled / unpooled Invoker (the statement calling the Go function is a call statement of the trace)")
 
 def run(ctx):
     out = ctx.path("tr.ndjson")
